@@ -10,7 +10,7 @@ for f in sorted(glob.glob("/verif/seeded/*/meta.json")):
     for l in notes.splitlines():
         if l.strip():
             title = re.sub(r"^#+\s*", "", l.strip())
-            title = re.sub(r"^C\d\d\s*(seed(ed)?\s*(change)?|regression|/)?\s*\(?(change\s*)?[ab]\)?\s*[-:]*\s*", "", title, flags=re.I)
+            title = re.sub(r"^C\d\d\s*(seed(ed)?\s*(change)?|regression|/)?\s*\(?(change\s*)?[abc]\)?\s*[-:]*\s*", "", title, flags=re.I)
             break
     cls = re.sub(r"^class=", "", m.get("reported_class", "")).split(" ")[0]
     rows.append((name, m, title, cls))
@@ -22,7 +22,7 @@ out = ["# Independently seeded changes", "",
        "check). None of them is committed in /repo. `sensitivity.sh` re-runs all of them (exit 1 expected from the check).",
        "",
        "Rounds: r1 = first round; r2 = second round, agents were told the two r1 changes and asked for rarer triggers;",
-       "r3 = third round, told the four earlier ones; r4 / r5 = fourth / fifth round, told the six / eight earlier ones. `first run` is the result of the quick check as it was when the",
+       "r3 = third round, told the four earlier ones; r4 / r5 = fourth / fifth round, told the six / eight earlier ones; r6 = sixth round, three changes per property (a, b, c), told the ten earlier ones and asked for changes that need a long history, an unusual but legal configuration, a boundary, or two sites that interact. `first run` is the result of the quick check as it was when the",
        "change came in; `now` the result with the committed machinery; `strengthened with` says what was added to the",
        "check (generator dimension or oracle clause, never a special case for the change) when the first run missed it.",
        "",
